@@ -126,9 +126,12 @@ std::map<uint32_t, uint16_t> build_program(const Case& c) {
         main.push_back(W("brr(RelAddr7,CondValue)", {0x7F, 12}));
         main.push_back(W("brr(RelAddr7,CondValue)", {0x7F, 0}));
         break;
-    default: // a self-branch whose condition is false (iu0 == 1 never holds) falls through to the real idle loop
+    default: // a self-branch whose condition is false (iu0 == 1 never holds) falls through into code with visible effects
+             // (a not-taken self-branch is no idle loop: nothing may be fast-forwarded over these instructions), then the real idle loop
         main.push_back(W("brr(RelAddr7,CondValue)", {0x7F, 14}));
         main.push_back(0x0000);
+        for (unsigned k = 0; k < 10; ++k)
+            emit_filler(main, (k * 5 + (unsigned)c.fillers.size()) % 6 == 0 ? 1 : (k * 5 + (unsigned)c.fillers.size()) % 6, 40 + k);
         main.push_back(W("brr(RelAddr7,CondValue)", {0x7F, 0}));
         break;
     }
